@@ -370,7 +370,9 @@ func (b Builder) abiUncommonMethodSet(t types.Type) (mset *types.MethodSet, ok b
 	switch t := types.Unalias(t).(type) {
 	case *types.Named:
 		if _, b := t.Underlying().(*types.Interface); b {
-			return
+			// a named interface type has no methods of its own, but it still
+			// has a package path for reflect to report
+			return new(types.MethodSet), true
 		}
 		mset := types.NewMethodSet(t)
 		if mset.Len() != 0 {
